@@ -61,9 +61,12 @@ class IntProperty(PropertyProtocol):
         converted = value
         if isinstance(converted, str):
             try:
-                converted = float(converted)
+                converted = int(converted)  # exact, whatever the magnitude
             except ValueError:
-                return PropertyError(f"Invalid int value: {converted}")
+                try:
+                    converted = float(converted)
+                except ValueError:
+                    return PropertyError(f"Invalid int value: {converted}")
         if isinstance(converted, float) and converted.is_integer():
             converted = int(converted)
         if isinstance(converted, int) and not isinstance(converted, bool):
